@@ -19,3 +19,13 @@ CHECKS["C04"] = (
     "Streams of 1..4 V3 packets with marker-bearing payloads and marker-free garbage prefixes are fed to the protocol in every segmentation with up to three cuts (exhaustive for the enumerated short streams), byte-by-byte, and in random segmentations of streams up to 64 KiB; after each chunk exactly the packets completed by that chunk must come out, in order, byte-identical. Level 2 checks through LAN.send that the call returns at the virtual instant the last byte of the first packet arrives and that nothing is lost or duplicated across two sends.",
     "Schedules are (time, chunk) delivery scripts on a single-threaded virtual-time loop; kernel TCP behaviour is not modelled.",
     "DESIGN.md 3/C04")
+CHECKS["C06"] = (
+    "exploration", "exhaustive reply mutation (512 bit flips, lengths, type nibbles, keys) + Hypothesis over credentials/forms/prior state, end to end against a model device",
+    "Device.authenticate runs end to end against a model V3 device that derives its own session key independently. Genuine replies must yield a session in which the model decrypts the next refresh under the agreed key; every single-bit flip of the 64-byte reply, wrong lengths, every other type nibble, error packets, replies under a different key (random and all 1-bit neighbours in thorough) and silence must yield exactly AuthenticationError, nothing but handshake requests on the wire, unchanged stored credentials and a following send that fails without data reaching the device. Exhaustive for the listed single mutations per credential set; search over credentials.",
+    "The model device's nonce policy (fresh nonce per request) is an assumption; oracles do not depend on it.",
+    "DESIGN.md 3/C06")
+CHECKS["C09"] = (
+    "exploration", "grammar-aware hostile-peer generation with re-signing/re-encryption (Hypothesis) + boundary catalogue; atheris in thorough",
+    "A recipe language builds hostile packets from valid V2/V3 templates with field overrides and recomputed signatures/tags so they pass the integrity guards; they are injected at every protocol phase (V2 send, V3 handshake, post-auth data, re-auth after 12 h) and observed at three API levels. Oracle: outcome class only (frames / ProtocolError / TimeoutError; AuthenticationError for Device.authenticate; no exception from refresh when no frame was produced). No counterexample among the counted cases.",
+    "Peer behaviour is limited to what (time, chunk) scripts on one connection can express.",
+    "DESIGN.md 3/C09")
